@@ -602,9 +602,10 @@ def check(pid, tier, seed):
                 mv = run_driver(lines)
                 if stream in ("compile", "c04"):
                     # kept for the kernel-versus-extraction cross-check (lib/xcheck.py)
-                    with open(os.path.join(CACHE, stream + ".cases"), "w") as f:
+                    # (per process: two checks that share a stream may run at the same time)
+                    with open(os.path.join(CACHE, "%s.%d.cases" % (stream, os.getpid())), "w") as f:
                         f.write("\n".join(lines) + "\n")
-                    with open(os.path.join(CACHE, stream + ".model"), "w") as f:
+                    with open(os.path.join(CACHE, "%s.%d.model" % (stream, os.getpid())), "w") as f:
                         f.write("\n".join("%s\t%s" % (m, v) for (m, v) in mv) + "\n")
                 for l, (m, v) in zip(lines, mv):
                     cmd, arg, impl = (l.split("\t") + ["", "", ""])[:3]
@@ -619,7 +620,12 @@ def check(pid, tier, seed):
         for st in ("compile", "c04"):
             if st in cfg["streams"]:
                 with Lock("coq"):
-                    rc, xout = sh([sys.executable, os.path.join(ROOT, "lib", "xcheck.py"), st, "40"], timeout=1200)
+                    rc, xout = sh([sys.executable, os.path.join(ROOT, "lib", "xcheck.py"), st, "40", str(os.getpid())], timeout=1200)
+                for ext in (".cases", ".model"):
+                    try:
+                        os.remove(os.path.join(CACHE, "%s.%d%s" % (st, os.getpid(), ext)))
+                    except OSError:
+                        pass
                 notes.append(xout.strip().split("\n")[0][:200])
                 if rc != 0:
                     proof["ok"] = False
